@@ -50,6 +50,16 @@ impl Side {
                 .await;
         }
     }
+    /// A past life of the document in the same store: it held `entries`, opened a session (computed its opening
+    /// message), was closed and removed, and is created again - empty.  Nothing of the past may show in what follows.
+    pub async fn past_life(&mut self, w: &World, entries: &[Value]) {
+        self.fill(w, entries).await;
+        let _ = self.init();
+        self.store.close_replica(w.nsid());
+        let _ = self.store.remove_replica(&w.nsid());
+        self.store.import_namespace(Capability::Write(w.ns.clone())).expect("import ns");
+        self.info = self.store.load_replica_info(&w.nsid()).expect("info");
+    }
     pub fn init(&mut self) -> anyhow::Result<ProtocolMessage> {
         let mut rep = iroh_docs::verif::replica(&mut self.store, &mut self.info);
         rep.sync_initial_message()
@@ -103,6 +113,12 @@ pub async fn run_scenario(
     let bb = mk_backend(sc["backend_b"].as_str().unwrap_or("mem"), "b");
     let mut a = Side::new(w, &ba);
     let mut b = Side::new(w, &bb);
+    if let Some(p) = sc["past_a"].as_array() {
+        a.past_life(w, p).await;
+    }
+    if let Some(p) = sc["past_b"].as_array() {
+        b.past_life(w, p).await;
+    }
     a.fill(w, sc["a0"].as_array().unwrap()).await;
     b.fill(w, sc["b0"].as_array().unwrap()).await;
     let ns = w.nsid();
@@ -192,9 +208,21 @@ pub fn gen_scenarios(r: &mut Rng, n: usize) -> Vec<Value> {
                 a0 = b0.clone();
                 a0.extend(gen_set(r, na, nk, mt, 2));
             }
-            json!({"a0":a0,"b0":b0,"cfg":[cfg.0,cfg.1],
+            let mut sc = json!({"a0":a0,"b0":b0,"cfg":[cfg.0,cfg.1],
                    "backend_a": if i % 4 == 1 {"file"} else {"mem"},
-                   "backend_b": if i % 4 == 2 {"file"} else {"mem"}})
+                   "backend_b": if i % 4 == 2 {"file"} else {"mem"}});
+            // every 6th scenario: one side's document had a past life in the same store (often holding what the peer holds
+            // now, so that anything remembered from it would look "already in sync"), and starts out empty or nearly so
+            if i % 6 == 4 {
+                let side = if r.chance(2, 3) { "a" } else { "b" };
+                let other = if side == "a" { "b0" } else { "a0" };
+                let past = if r.chance(2, 3) { sc[other].clone() } else { json!(gen_set(r, na, nk, mt, mx)) };
+                sc[format!("past_{side}")] = past;
+                if r.chance(1, 2) {
+                    sc[format!("{side}0")] = json!([]);
+                }
+            }
+            sc
         })
         .collect()
 }
